@@ -34,6 +34,7 @@ func runC12(cases string, res *Result) {
 	c12MacrosReachedFromIncludes(res)
 	firstKnown := map[string]*Finding{}
 	knownSize := map[string]int{}
+	evalVariantBudget = 14000
 	readCases(cases, func(c Case) {
 		if evalAbort {
 			return
